@@ -99,6 +99,8 @@ def cliStep (s : Turn.Cli.State) (toks : List String) : Option (Turn.Cli.State Ã
   | ["cin", "other"] => run (.inbound .stunOther)
   | ["cin", "garbage-server"] => run (.inbound .garbageFromServer)
   | ["cin", "garbage-other"] => run (.inbound .garbageFromOther)
+  | ["cin", "dind-other", _, _] => run (.inbound .relayedFromOther)
+  | ["cin", "cdat-other", _] => run (.inbound .relayedFromOther)
   | ["cnet", "dind", a, d] => some ((Turn.Cli.step s (.inbound (.dataInd (cAddr a) (parseHex d)))).1, "-")
   | ["cnet", "cdat", raw] => some ((Turn.Cli.step s (.inbound (.chanData (parseHex raw)))).1, "-")
   | "cnet" :: _ => some (s, "-")
